@@ -76,7 +76,7 @@ Cat == [f \in Families |->
     [] f = "EHEP"       -> RowF("gamma", "euler", "ehep", R_EHEP, G_EHEP, TRUE, {})
     [] f = "Mader"      -> RowF("cjisentrope", "none", "table", {"mader"}, G_Smooth, FALSE, {})
     [] f = "Riemann2D"  -> RowF("gamma2", "none", "root", {"B", "fanB", "Bs", "Ts", "fanT", "T"}, G_Riemann2D, FALSE, {"T"})
-    [] f = "SDRZ"       -> RowF("none", "none", "table", {"zone", "ahead"}, {<<"zone", "cont", "ahead">>}, FALSE, {})
+    [] f = "SDRZ"       -> RowF("sound", "none", "table", {"zone", "ahead"}, {<<"zone", "cont", "ahead">>}, FALSE, {})
     [] f = "RadShock"   -> RowF("radshock", "none", "ode", {"all", "far-downstream"}, {<<"all", "cont", "far-downstream">>, <<"far-downstream", "cont", "all">>}, FALSE, {})   \* far-downstream: the last tabulated point
     \* Reinicke / Meyer-ter-Vehn: a heat front runs ahead of an isothermal shock into cold gas rho = g0 r^kappa
     [] f = "RMTV"       -> RowF("rmtv", "rmtv", "rmtv", {"shocked", "heated", "cold"},
